@@ -22,7 +22,8 @@ RULE = ("One environment (plain, continuous SpaceWorld, DiscreteWorld, LineWorld
         "(duplicate add of each resident id with a different object, unknown remove / strict lookup, out-of-bounds placement "
         "on each positive axis x both sides, also combined with a duplicate id) is injected once and the state snapshot must "
         "be identical before and after, with the documented error type. Non-trivial: a rejected op in a state with >= 2 "
-        "residents and a removal of a resident that is neither first nor last. Distinct = digest of the case.")
+        "residents and a removal of a resident that is neither first nor last. Distinct = digest of the case."
+        " Added in rounds 19-24: the model may be marked complete before operation k; an operation 'use' exercises the environment's other services in between (shuffle whose result is edited, random picks, loops left early, len).")
 ASSUMPTIONS = ["agents' component sets are not modified while resident (that is C03's dimension)",
                "out-of-bounds placement is documented as plain Exception (with a TODO for a dedicated class): accepted are "
                "Exception itself, exception classes defined in an ECAgent module, IndexError, ValueError",
